@@ -649,7 +649,12 @@ def ds_part(name, strat_fn, share=1.0):
 @st.composite
 def deque_case(draw, tier):
     nth = draw(ints(1, 3))
-    shape = draw(st.sampled_from(["single_element_races", "growth_under_steal", "two_growths_one_steal", "mixed", "mixed"]))
+    shape = draw(st.sampled_from(["single_element_races", "growth_under_steal", "two_growths_one_steal", "deep_top", "mixed", "mixed"]))
+    if shape == "deep_top":
+        # top travels past the first array size while a slow thief still holds the old array
+        owner = [op("push", draw(ints(280, 330))), op("pop", draw(ints(0, 3))), op("push", draw(ints(1, 40)))]
+        fibers = [owner, [op("steal", draw(ints(270, 300)), 0)]] + [[op("steal", draw(ints(1, 3)), draw(ints(0, 1)))] for _ in range(max(1, nth - 1))]
+        return {"harness": "deque", "threads": 1, "cfg": {}, "fibers": fibers, "classes": ["thieves=%d" % (len(fibers) - 1), shape]}
     if shape == "two_growths_one_steal":
         owner = [op("push", draw(ints(1, 40))), op("push", draw(ints(260, 300))), op("push", draw(ints(260, 300))), op("pop", draw(ints(0, 3)))]
         fibers = [owner] + [[op("steal", draw(ints(1, 3)), draw(ints(0, 1)))] for _ in range(nth)]
@@ -957,6 +962,11 @@ _s19 = Spec("C19", "ctx", lambda tier: [], {"quick": 1500, "thorough": 20000}, r
 _s19.custom = lambda prop, tier, seed, we, sr: _c19.custom(prop, tier, seed, we, sr, _s19)
 _s19.engine = "ctx_runner"
 SPECS["C19"] = _s19
+
+for _p, _h in (("C02", "deque"), ("C13", "mpmc"), ("C14", "hazard"), ("C15", "queue"), ("C16", "ring"), ("C17", "workq"), ("C20", "dwcas")):
+    SPECS[_p].fuzz_harness = _h
+    SPECS[_p].build = "rt fuzz"
+    SPECS[_p].technique += "; plus a coverage-guided libFuzzer campaign over the same harness (bytes -> case + schedule), candidates re-executed by the deterministic runner"
 
 NOT_APPLICABLE = {}
 HOOK_COMMITS = ["0bef496"]
